@@ -89,7 +89,7 @@ static rc::Gen<Op> gen_op_from(const std::map<int, double> &w, int nmods, const 
         case P::O_SRC_REG: case P::O_SRC_DEREG: if (prop != "C09reg") { ga = gens::range<long>(3, 8); gb = gens::range<long>(0, 3); break; } ga = gens::range<long>(1, 8); gb = gens::weighted_values<long>({{5, 0}, {5, 1}, {4, 2}, {3, 3}, {2, 4}, {2, 5}, {4, 6}, {4, 7}, {3, 8}, {2, 9}, {2, 10}, {2, 11}, {2, 99}}); break;
         case P::O_SRC_FIRE: ga = gens::weighted_values<long>({{1, 3}, {1, 4}, {1, 5}}); gb = gens::range<long>(0, 3); break;
         case P::O_TASK_RELEASE: ga = gens::range<long>(0, 3); break;
-        case P::O_SET_TB: ga = gens::weighted_values<long>({{1, 0}, {2, 50}, {3, 100}, {3, 200}, {2, 500}, {2, 1000}, {1, 333}}); gb = gens::range<long>(1, 9); break;
+        case P::O_SET_TB: ga = gens::weighted_values<long>({{1, 0}, {2, 50}, {3, 100}, {3, 200}, {2, 500}, {2, 1000}, {1, 333}}); gb = gens::weighted_values<long>({{3, 1}, {3, 2}, {3, 3}, {2, 4}, {2, 5}, {1, 6}, {1, 8}, {2, 0}}); break;
         case P::O_SLEEP: ga = gens::weighted_values<long>({{2, 1}, {2, 3}, {1, 8}, {1, 25}}); break;
         default: break;
         }
